@@ -301,7 +301,10 @@ pub fn link_cores(cores: Vec<CoreUnit>) -> Result<LinkOutput, CompilationError> 
         ));
     }
 
-    for (pkg, unit) in by_name.iter() {
+    let mut names: Vec<&String> = by_name.keys().collect();
+    names.sort();
+    for pkg in names {
+        let unit = &by_name[pkg];
         for (dep, expected_hash) in unit.deps.iter() {
             let Some(dep_unit) = by_name.get(dep) else {
                 return Err(compile_error(format!(
